@@ -20,7 +20,7 @@ from . import h5util as H
 
 ID = "C10"
 MOD = "harness.props.c10"
-LEAN = dict(modules=[], theorems=[], drivers=[])
+LEAN = dict(modules=[], theorems=[], drivers=["drv_mrg"])
 
 
 def _sha(p):
@@ -68,7 +68,7 @@ def impl(case):
     from metador_core.ih5.record import IH5Record
 
     tmp = tempfile.mkdtemp(prefix="vt-c10-")
-    oracle, tags = [], []
+    oracle, tags, out = [], [], []
     try:
         real_dir = os.path.join(tmp, "real")
         os.makedirs(real_dir)
@@ -93,18 +93,20 @@ def impl(case):
             if op[0] == "patch":
                 commit(op[1] if len(op) > 1 else None)
                 rec.create_patch()
+                out.append("ok")
             elif op[0] == "reopen":
                 # close (committing) and reopen; or leave the patch uncommitted and continue it
                 if op[1] == "commit":
                     commit(None)
                     rec.close()
                     rec = IH5MFRecord(Path(real_dir) / "rec", "r+")
+                    out.append("ok")
                 else:
                     rec.close(commit=False)
                     rec = IH5MFRecord(Path(real_dir) / "rec", "r+")
                     tags.append("reopen-uncommitted")
             else:
-                H.apply_op(rec, op)
+                out.append(H.oc(H.apply_op(rec, op)))
         commit(case.get("final_exts"))
         if len(exts) and ncommit > 1:
             tags.append("exts-inherited")
@@ -161,6 +163,7 @@ def impl(case):
         shutil.copy(stub_patch, tgt)
         if os.path.exists(stub_patch + "mf.json"):
             shutil.copy(stub_patch + "mf.json", tgt + "mf.json")
+        dump_via = None
         try:
             v = IH5MFRecord(Path(via_dir) / "rec", "r")
             dump_via = H.dump(v)
@@ -182,9 +185,35 @@ def impl(case):
             tags.append("update-effective")
         if any(op[0] == "del" and H.is_ok(o) for op, o in zip(upd, out_direct)):
             tags.append("update-deletes")
-        return dict(out=None, oracle=oracle, tags=tags)
+        out += [H.show_dump(d_real), H.show_skel(d_real), "ok", "ok"] + [H.oc(x) for x in out_direct] + [H.show_dump(dump_direct)]
+        out += ["ok", "ok", H.show_skel(d_stub), H.show_dump(d_stub), "ok"] + [H.oc(x) for x in out_stub] + ["ok"]
+        if dump_via is not None:
+            out.append(H.show_dump(dump_via))
+        return dict(out=out, oracle=oracle, tags=tags, partial=dump_via is None)
     finally:
         shutil.rmtree(tmp, ignore_errors=True)
+
+
+def lines(case):
+    L = []
+    for op in case["ops"]:
+        if op[0] == "patch" or (op[0] == "reopen" and op[1] == "commit"):
+            L.append("patch")
+        elif op[0] == "reopen":
+            continue
+        else:
+            L.append(H.op_line(op))
+    upd = [H.op_line(op) for op in case.get("update") or []]
+    L += ["dump", "skel", "save", "patch"] + upd + ["dump"]
+    L += ["restore", "stub", "skel", "dump", "patch"] + upd + ["graft", "dump"]
+    return L
+
+
+def compare(case, ir, mo):
+    out = ir.get("out") or []
+    if ir.get("partial") or len(out) != len(mo):
+        mo = mo[: len(out)]
+    return core.default_compare(case, dict(out=out), mo)
 
 
 def rand_update(rng, n):
@@ -219,17 +248,7 @@ def run(ctx):
                 "committed or uncommitted); stub from the newest manifest; existence-based update (set/grp/del/sattr/dattr) via stub and directly; "
                 "non-trivial = >=3 containers, inherited extensions, reopen with uncommitted patch, effective update, update deletes")
     cases = core.load_corpus(ID) + gen_cases(ctx)
-    res = pool.run(MOD, "impl", cases, timeout=120)
-    for c, r in zip(cases, res):
-        if "timeout" in r:
-            ctx.oracle_hit(c, dict(kind="does-not-terminate"))
-            ctx.note_case(c, ["timeout"])
-        elif "crash" in r:
-            raise lean.InfraError("c10 impl crashed: %s\n%s" % (r["crash"], r.get("tb", "")))
-        else:
-            for d in r["ok"]["oracle"]:
-                ctx.oracle_hit(c, d)
-            ctx.note_case(c, r["ok"]["tags"], len(c["ops"]) + len(c.get("update", [])))
+    ctx.correspond("stub-model", MOD, cases, lines, "drv_mrg", compare=compare, timeout=120)
 
 
 def signature(case, detail):
